@@ -27,10 +27,36 @@ class Family:
         self.base = prog.cls("BaseRandomLineAccessFile", FILES_MOD)
         self.map_file = prog.cls("MapAccessFile", FILES_MOD)
         self.line_classes: List[Cls] = []
+        # roles of the private reader methods, discovered from the abstract base: the item getter is what __getitem__
+        # calls with its selector, the raw reader is what the base item getter returns, the next-line reader and the seek
+        # helper are the remaining abstract one-/zero-argument methods called by __iter__ / the raw readers
+        gi = self.base.methods.get("__getitem__")
+        self.item_getter = self.raw_reader = self.next_reader = self.seek_helper = None
+        if gi is not None and len(gi.params) >= 2:
+            for n in walk_own(gi.node):
+                if isinstance(n, ast.Return) and isinstance(n.value, ast.Call) and isinstance(n.value.func, ast.Attribute) \
+                        and isinstance(n.value.func.value, ast.Name) and n.value.func.value.id == gi.self_name \
+                        and len(n.value.args) == 1 and isinstance(n.value.args[0], ast.Name) and n.value.args[0].id == gi.params[1]:
+                    self.item_getter = n.value.func.attr
+        ig = self.base.methods.get(self.item_getter) if self.item_getter else None
+        if ig is not None:
+            for n in walk_own(ig.node):
+                if isinstance(n, ast.Return) and isinstance(n.value, ast.Call) and isinstance(n.value.func, ast.Attribute) \
+                        and isinstance(n.value.func.value, ast.Name) and n.value.func.value.id == ig.self_name:
+                    self.raw_reader = n.value.func.attr
+        for name, m in self.base.methods.items():
+            if m.is_abstract and not m.is_property and name not in ("open", "close", self.raw_reader):
+                if len(m.params) == 1:
+                    self.next_reader = name
+                elif len(m.params) == 2:
+                    self.seek_helper = name
+        if None in (self.item_getter, self.raw_reader, self.next_reader, self.seek_helper):
+            raise AnalysisError(f"line-file family: reader roles not discoverable (item getter {self.item_getter}, raw reader "
+                                f"{self.raw_reader}, next-line reader {self.next_reader}, seek helper {self.seek_helper})")
         for c in prog.classes.values():
             if c.mod.name != FILES_MOD or self.base not in (c.mro or []):
                 continue
-            rl = prog.resolve(c, "_read_line")
+            rl = prog.resolve(c, self.raw_reader)
             op = prog.resolve(c, "open")
             if rl is not None and not rl.is_abstract and op is not None and not op.is_abstract:
                 self.line_classes.append(c)
